@@ -211,6 +211,8 @@ func c01(c *Ctx) (*report.Result, error) {
 	res.RuleDoc["O1.8"] = "a silent target constrains the acknowledgement: before a task batch is handed to a target shard, the receiver makes sure ackByTarget has an entry for that target (created, only if absent, with the id of the first task handed over, under ackMu) - the upstream ack is the minimum over the entries, so a target without an entry (no ack yet) would not hold it back"
 	if f := resolve(c, res, "O1.8", anchor{"proxy", "*proxyStreamReceiver", "recvReplicationMessages"}); f != nil {
 		checkSilentTargets(c, res, f, "O1.8")
+		res.RuleDoc["O1.11"] = "each target stream's sender owns the message it is handed (same analysis as O2.5 / O4.12): a body shared between the targets of a fan-out lets one target's sender inherit another's rewritten watermark, advertise it in keep-alives, and have the target confirm ids it was never sent - which the ring translates into source ids that were not confirmed"
+		checkFreshPerHandover(c, res, "O1.11", f)
 	}
 	res.RuleDoc["O1.6"] = "the watermark replayed to late-registering target shards is a watermark nobody can be behind: every receiver's lastWatermark is written only from watermark-only batches (under len(ReplicationTasks) == 0); the exclusive high watermark of a task batch is not replayed, because its tasks may still be waiting for their target"
 	checkReplayedWatermark(c, res, "O1.6")
